@@ -29,7 +29,7 @@ TECHNIQUE = ("model-based stateful testing: Hypothesis-generated handshake "
              "an EL6002 channel model; invariants over the history")
 RULE = ("Hypothesis draws (channel 1 or 2, per cycle: optional application "
         "write(s), optional terminal chunk, accept delays in both directions, "
-        "init delay); non-trivial = both directions transferred data and at "
+        "init delay, stale toggle bits / data at start-up); non-trivial = both directions transferred data and at "
         "least one accept was delayed by >= 1 cycle; distinct by (cycle "
         "event pattern, delays)")
 ASSUMPTIONS = [
@@ -58,6 +58,7 @@ def strategy(tier):
         "init_delay": st.integers(0, 3),
         "cycles": st.lists(cycle, min_size=3, max_size=40),
         "noise": st.integers(0, 255),
+        "stale": st.sampled_from([0, 0, 1, 2, 3]) | st.integers(0, 255),
     })
 
 
@@ -93,9 +94,13 @@ def _run(case, ec, term, dev):
     # the other channel's bytes must never change
     other_in = sg.pdo_assign[term][SyncManager.IN] + 24 - off
     other_out = sg.pdo_assign[term][SyncManager.OUT] + 24 - off
-    data[ipos] = 0
+    # the toggle bits may be in any state when the master (re)starts, and the
+    # data field may hold an old chunk
+    stale = case.get("stale", 0)
+    data[ipos] = stale & 3
     data[opos] = 0
-    data[ipos + 1:ipos + 24] = bytes(23)
+    data[ipos + 1:ipos + 24] = struct.pack(
+        "<23p", bytes([stale]) * (stale % 23)) if stale else bytes(23)
     snapshot_other = bytes(data[other_out:other_out + 24])
 
     app_written = bytearray()
